@@ -710,6 +710,14 @@ pub fn run_c05(ctx: &mut Ctx, _known: &Known) {
             ("random parentheses and spacing", gen::print_cond(c, &mut r, 35)),
             ("outer parentheses", format!("( {} )", { let mut r0 = Rng::new(2); gen::print_cond(c, &mut r0, 0) })),
         ];
+        let mut variants = variants;
+        if ci % 20 == 3 {
+            // any amount of white space: wide gaps between the tokens, long runs in front and behind
+            let minimal = { let mut r0 = Rng::new(1); gen::print_cond(c, &mut r0, 0) };
+            variants.push(("gaps of 40 blanks", minimal.replace(' ', &" ".repeat(40))));
+            variants.push(("gaps of 300 blanks and tabs", minimal.replace(' ', &format!("{}\t{}", " ".repeat(150), " ".repeat(149)))));
+            variants.push(("2000 blanks in front and behind", format!("{}{}{}", " ".repeat(2000), minimal, " ".repeat(2000))));
+        }
         let mut first_res: Option<Vec<String>> = None;
         for (vn, text) in variants {
             let mut det = ids.clone();
@@ -742,6 +750,36 @@ pub fn run_c05(ctx: &mut Ctx, _known: &Known) {
             }
             if ctx.samples.len() < 6 && ci % 37 == 5 {
                 ctx.sample(json!({"condition": text, "variant": vn, "tree": want}));
+            }
+        }
+    }
+    // the grammar is FIXED: what a condition means does not depend on what was loaded — or refused —
+    // before on the same thread. 300 refused conditions whose error sits inside parentheses, inside
+    // a cast, inside of(..); then conditions with parentheses again, against their first reading
+    {
+        let probes = ["(A or B) and A", "(A)", "((A and B)) or not (B)", "not (A and (B or A))", "(int(f0) >= 1) and (A or B)", "of(B, 1) and (all(A))"];
+        let read = |ctx: &mut Ctx, text: &str| -> (String, Exchange) {
+            let mut det = ids.clone();
+            det.push(("condition".into(), ys(text)));
+            let cs = case(det, docs.clone(), vec![0]);
+            let (ex, parsed) = run_rule_case(ctx, &cs, false);
+            (match parsed { Some(p) if p.load == "ok" => format!("ok {} {:?}", p.expr, tri_of(&p, 0)), _ => format!("refused: {}", trunc(&ex.imp, 80)) }, ex)
+        };
+        let before: Vec<String> = probes.iter().map(|t| read(ctx, t).0).collect();
+        let bad = ["(A or ) and B", "((A and) ) or B", "(A or (B and )) and A", "(int(f0) > ) or A", "(((A or", "(A or B)) and A", "(of(A, ) or B) and A", "not (not (not (A and )))", "(A and int()) or B", "((((((A or ))))))"];
+        for round in 0..30 {
+            for b in bad.iter() {
+                let _ = read(ctx, b);
+            }
+            if round % 10 == 9 {
+                for (k, t) in probes.iter().enumerate() {
+                    let (now, ex) = read(ctx, t);
+                    ctx.nontrivial.insert(hash_str(&format!("history{}{}", round, t)));
+                    if now != before[k] {
+                        ctx.violation("oracle", &format!("after {} refused conditions on the same thread `{}` reads differently: {} (before: {})", (round + 1) * bad.len(), t, now, before[k]), &ex, t, true);
+                        return;
+                    }
+                }
             }
         }
     }
@@ -1058,6 +1096,8 @@ pub fn run_c09(ctx: &mut Ctx, _known: &Known) {
         Yaml::Number(1e300f64.into()), Yaml::Number((-1e300f64).into()), Yaml::Number(f64::NAN.into()), Yaml::Number(f64::INFINITY.into()), Yaml::Number(f64::NEG_INFINITY.into()),
         Yaml::Number(9223372036854775807.0f64.into()), Yaml::Number(1.0f64.into()), Yaml::Number(4.5f64.into()), Yaml::Number(5.5f64.into()), Yaml::Number((-0.5f64).into()),
         ys("5"), ys("-1"), ys("+5"), ys(" 5"), ys("5.0"), ys("2.5"), ys("1e3"), ys("abc"), ys(""), ys("nan"), ys("inf"), ys("9223372036854775808"), ys("0x10"), ys("05"),
+        // numeric text need not be canonical: zero padding and an explicit plus sign, any length
+        ys("000000000000000000000005"), ys("+00000000000000000000001"), ys("-00000000000000000000001"), ys("0000000000000000000000000000000000000000"), ys("00000000009223372036854775807"), ys("0000000000000000000002.5"),
         Yaml::Bool(true), Yaml::Bool(false), Yaml::Null, Yaml::Sequence(vec![Yaml::Number(5u64.into())]), map1("k", Yaml::Number(5u64.into())),
     ];
     let n_rand = budget(ctx, 40, 2000);
@@ -1578,6 +1618,88 @@ pub fn run_c09(ctx: &mut Ctx, _known: &Known) {
                         if res[field_vals.len()] == "T" {
                             ctx.violation("oracle", &format!("`{}` (mask {}) holds on a document without the field", cond, mask), &ex, &ry, true);
                             break 'masks;
+                        }
+                    }
+                }
+            }
+        }
+    }
+    // (2c) a cast against a cast, alone and as a member of a disjunction that shares its left field
+    //      with other members (what the matrix pass tabulates), plain and optimised
+    {
+        let icast = |fv: &Yaml| -> Option<i128> {
+            match fv {
+                Yaml::Bool(b) => Some(*b as i128),
+                Yaml::Number(n) if n.is_u64() => { let u = n.as_u64().unwrap(); if u <= i64::MAX as u64 { Some(u as i128) } else { None } }
+                Yaml::Number(n) if n.is_i64() => Some(n.as_i64().unwrap() as i128),
+                Yaml::Number(n) => { let x = n.as_f64().unwrap().round(); if x.is_finite() && x >= -9223372036854775808.0 && x < 9223372036854775808.0 { Some(x as i128) } else { None } }
+                Yaml::String(s) => s.parse::<i64>().ok().map(|v| v as i128),
+                _ => None,
+            }
+        };
+        let fcast = |fv: &Yaml| -> Option<f64> {
+            match fv {
+                Yaml::Bool(b) => Some(if *b { 1.0 } else { 0.0 }),
+                Yaml::Number(n) if n.is_u64() => Some(n.as_u64().unwrap() as f64),
+                Yaml::Number(n) if n.is_i64() => Some(n.as_i64().unwrap() as f64),
+                Yaml::Number(n) => n.as_f64(),
+                Yaml::String(s) => s.parse::<f64>().ok(),
+                _ => None,
+            }
+        };
+        let vals: Vec<Yaml> = vec![Yaml::Number(1u64.into()), Yaml::Number(7u64.into()), Yaml::Number(1000u64.into()), Yaml::Number((-3i64).into()), Yaml::Number(2.5f64.into()), ys("7"), ys("abc"), Yaml::Bool(true), Yaml::Null];
+        let mut pdocs: Vec<(Yaml, Option<Yaml>, Option<Yaml>)> = vec![];
+        for a in vals.iter().map(Some).chain(std::iter::once(None)) {
+            for b in vals.iter().map(Some).chain(std::iter::once(None)) {
+                let mut m = Mapping::new();
+                if let Some(a) = a { m.insert(ys("f"), a.clone()); }
+                if let Some(b) = b { m.insert(ys("g"), b.clone()); }
+                pdocs.push((Yaml::Mapping(m), a.cloned(), b.cloned()));
+            }
+        }
+        let only_docs: Vec<Yaml> = pdocs.iter().map(|d| d.0.clone()).collect();
+        let cmasks = vec![0u64, 15, 10, 14, 11, 8];
+        for kind in ["int", "flt"] {
+            for op in ["<", "<=", ">", ">=", "=="] {
+                for form in 0..4 {
+                    let cmp = format!("{}(f) {} {}(g)", kind, op, kind);
+                    let cond = match form {
+                        0 => cmp.clone(),
+                        1 => format!("{} or int(f) == 7 or B", cmp),
+                        2 => format!("B or {} or int(f) == 7", cmp),
+                        _ => format!("B or int(g) == 7 or {}", cmp),
+                    };
+                    let cs = case(vec![("B".into(), map1("f", Yaml::Number(1000u64.into()))), ("condition".into(), ys(&cond))], only_docs.clone(), cmasks.clone());
+                    let (ex, parsed) = run_rule_case(ctx, &cs, false);
+                    let ry = rule_yaml(&cs);
+                    if ex.imp.contains("PANIC") {
+                        ctx.violation("oracle", &format!("`{}` panics: {}", cond, trunc(&ex.imp, 200)), &ex, &ry, true);
+                        continue;
+                    }
+                    let p = match parsed {
+                        Some(p) if p.load == "ok" => p,
+                        _ => continue,
+                    };
+                    'cm: for mask in &cmasks {
+                        let res = tri_of(&p, *mask);
+                        for (j, (_, a, b)) in pdocs.iter().enumerate() {
+                            let rel = match (a, b) {
+                                (Some(a), Some(b)) => if kind == "int" {
+                                    match (icast(a), icast(b)) { (Some(x), Some(y)) => holds(op, cmp_exact(&NumV::I(x), &NumV::I(y))), _ => false }
+                                } else {
+                                    match (fcast(a), fcast(b)) { (Some(x), Some(y)) => holds(op, x.partial_cmp(&y)), _ => false }
+                                },
+                                _ => false,
+                            };
+                            let f7 = a.as_ref().and_then(|a| icast(a)) == Some(7);
+                            let g7 = b.as_ref().and_then(|b| icast(b)) == Some(7);
+                            let bb = a.as_ref().map(|a| *a == Yaml::Number(1000u64.into())).unwrap_or(false);
+                            let want = match form { 0 => rel, 1 | 2 => rel || f7 || bb, _ => rel || g7 || bb };
+                            ctx.nontrivial.insert(hash_str(&format!("castcast{}{}", cond, j)));
+                            if (res[j] == "T") != want {
+                                ctx.violation("oracle", &format!("`{}` (mask {}) gives {} for f = {:?}, g = {:?}, expected {}", cond, mask, res[j], a, b, want), &ex, &ry, true);
+                                break 'cm;
+                            }
                         }
                     }
                 }
@@ -2805,9 +2927,80 @@ fn c17_rows_one_field(ctx: &mut Ctx) {
     }
 }
 
+/// (c) operands that differ only in their CASE FLAG (the same needles with and without `i`) in every
+///     order of an and / or chain, and disjunctions of 130 to 260 entries on one field in several
+///     rotations: neither what an operand is equal to nor how many there are makes the order count
+fn c17_twins_and_long_lists(ctx: &mut Ctx) {
+    let docs: Vec<Yaml> = [("ADMIN", "dc01"), ("admin", "dc01"), ("Root", "dc01"), ("x", "dc01"), ("admin", "ws"), ("ROOT", "DC01")].iter().map(|(u, h)| mapn(vec![("user".into(), ys(u)), ("host".into(), ys(h))])).collect();
+    let ids: Vec<(String, Yaml)> = vec![
+        ("A".into(), map1("user", Yaml::Sequence(vec![ys("admin"), ys("root")]))),
+        ("B".into(), map1("user", Yaml::Sequence(vec![ys("iadmin"), ys("iroot")]))),
+        ("C".into(), map1("host", ys("dc01"))),
+        ("D".into(), map1("user", Yaml::Sequence(vec![ys("admin*"), ys("*root")]))),
+        ("E".into(), map1("user", Yaml::Sequence(vec![ys("iadmin*"), ys("i*root")]))),
+    ];
+    let masks = vec![0u64, 15, 3, 2, 7];
+    for (names, joiner) in [(vec!["A", "B", "C"], " and "), (vec!["B", "A", "C"], " or "), (vec!["D", "E", "C"], " and "), (vec!["A", "B", "D", "E"], " and "), (vec!["A", "E", "C"], " and "), (vec!["B", "D", "C"], " or ")] {
+        let mut base: Option<Vec<Vec<bool>>> = None;
+        for perm in permutations(&(0..names.len()).collect::<Vec<_>>()) {
+            let cond = perm.iter().map(|&j| names[j]).collect::<Vec<_>>().join(joiner);
+            let mut det = ids.clone();
+            det.push(("condition".into(), ys(&cond)));
+            let c = case(det, docs.clone(), masks.clone());
+            let (ex, parsed) = run_rule_case(ctx, &c, false);
+            let p = match parsed {
+                Some(p) if p.load == "ok" => p,
+                _ => break,
+            };
+            ctx.nontrivial.insert(hash_str(&cond));
+            let got: Vec<Vec<bool>> = masks.iter().map(|m| tri_of(&p, *m).iter().map(|t| t == "T").collect()).collect();
+            match &base {
+                None => base = Some(got),
+                Some(b) => {
+                    if *b != got {
+                        let which = (0..masks.len()).find(|i| b[*i] != got[*i]).unwrap_or(0);
+                        ctx.violation("oracle", &format!("reordering the operands of `{}` (lists that differ only in their case flag) changes whether it is true (mask {})", cond, masks[which]), &ex, &rule_yaml(&c), true);
+                        break;
+                    }
+                }
+            }
+        }
+    }
+    for (n, kind) in [(130usize, 0usize), (200, 1), (260, 2), (129, 0)] {
+        let member = |i: usize| -> String { match kind { 0 => format!("srv{:03}", i), 1 => match i % 3 { 0 => format!("srv{:03}*", i), 1 => format!("*srv{:03}", i), _ => format!("*srv{:03}*", i) }, _ => format!("iSRV{:03}", i) } };
+        let ldocs: Vec<Yaml> = [0usize, 1, 63, 64, 127, 128, n - 2, n - 1].iter().map(|i| map1("host", ys(&format!("srv{:03}", i)))).chain(std::iter::once(map1("host", ys("other")))).collect();
+        let mut base: Option<Vec<Vec<bool>>> = None;
+        for rot in [0usize, 1, 2, 64, n - 1] {
+            let seq: Vec<Yaml> = (0..n).map(|j| map1("host", ys(&member((j + rot) % n)))).collect();
+            for as_list in [false, true] {
+                let body = if as_list { map1("host", Yaml::Sequence((0..n).map(|j| ys(&member((j + rot) % n))).collect())) } else { Yaml::Sequence(seq.clone()) };
+                let c = case(vec![("A".into(), body), ("B".into(), map1("zone", ys("dmz"))), ("condition".into(), ys("A or B"))], ldocs.clone(), vec![0, 15, 2]);
+                let (ex, parsed) = run_rule_case(ctx, &c, false);
+                let p = match parsed {
+                    Some(p) if p.load == "ok" => p,
+                    _ => continue,
+                };
+                ctx.nontrivial.insert(hash_str(&format!("long{}{}{}{}", n, kind, rot, as_list)));
+                let got: Vec<Vec<bool>> = [0u64, 15, 2].iter().map(|m| tri_of(&p, *m).iter().map(|t| t == "T").collect()).collect();
+                match &base {
+                    None => base = Some(got),
+                    Some(b) => {
+                        if *b != got {
+                            let which = (0..3).find(|i| b[*i] != got[*i]).unwrap_or(0);
+                            ctx.violation("oracle", &format!("a disjunction of {} entries on one field: rotating the entries by {} changes a verdict (mask {})", n, rot, [0, 15, 2][which]), &ex, &trunc(&rule_yaml(&c), 1200), true);
+                            return;
+                        }
+                    }
+                }
+            }
+        }
+    }
+}
+
 pub fn run_c17(ctx: &mut Ctx, _known: &Known) {
     c17_fixed(ctx);
     c17_rows_one_field(ctx);
+    c17_twins_and_long_lists(ctx);
     let n = budget(ctx, 250, 6000);
     let masks = vec![0u64, 15];
     for i in 0..n {
